@@ -162,7 +162,7 @@ func main() {
 		T(p(7, 5000, 0), p(7, 5001, 0), p(7, 5000, 3)),                                                 // a part more than 2147.48 units from the origin (beyond int32 micro-units)
 		T(p(-3000, -3000, -3000), p(-3001, -3000, -3000), p(-3000, -3002, -3000)),
 	}
-	l3 := lists(menu3, vlib.Pick(c, 3, 4))
+	l3 := lists(menu3, vlib.Pick(c, 3, 5))
 	chunk3 := map[int][]int{}
 	for pi, pat := range chunkPatterns {
 		for _, n := range []int{135, 390, 700} {
@@ -266,7 +266,7 @@ func main() {
 		L(4, 1, 4+5e-10, 1+5e-10),      // shorter than 1e-9
 		L(1e-10, 2e-10, 3e-10, -1e-10), // a drawing at 1e-10 scale
 	}
-	l2 := lists(menu2, vlib.Pick(c, 3, 4))
+	l2 := lists(menu2, vlib.Pick(c, 3, 5))
 	chunk2 := map[int][]int{}
 	for pi, pat := range chunkPatterns {
 		for _, n := range []int{135, 390, 700} {
@@ -524,7 +524,7 @@ func main() {
 		{"Triangle", func(d *render.DXF) { d.Triangle(tri2) }, []*sdf.Line2{L(0, 0, 3, 0), L(3, 0, 1, 2), L(1, 2, 0, 0)}, 0},
 		{"Box", func(d *render.DXF) { b := box2; d.Box(&b) }, []*sdf.Line2{L(-1, -2, 4, -2), L(4, -2, 4, 5), L(4, 5, -1, 5), L(-1, 5, -1, -2)}, 0},
 	}
-	opSeqs := lists([]int{0, 1, 2, 3, 4}, vlib.Pick(c, 3, 4))
+	opSeqs := lists([]int{0, 1, 2, 3, 4}, vlib.Pick(c, 3, 5))
 	states += c.ParFor(len(opSeqs), func(i int) {
 		seq := opSeqs[i]
 		var names []string
